@@ -13,8 +13,9 @@ def main():
     pid, n = sys.argv[1], sys.argv[2]
     suite = "--no-suite" not in sys.argv
     src = Path(f"/tmp/seed-{pid}-out/{n}")
-    if int(n) > 2:                       # round 2: /tmp/seed2-Cxx-out/{1,2} are stored as Cxx-3, Cxx-4
-        src = Path(f"/tmp/seed2-{pid}-out/{int(n) - 2}")
+    if int(n) > 2:                       # round r: /tmp/seed<r>-Cxx-out/{1,2} are stored as Cxx-(2r-1), Cxx-2r
+        rnd = (int(n) + 1) // 2
+        src = Path(f"/tmp/seed{rnd}-{pid}-out/{int(n) - 2 * (rnd - 1)}")
     wt = Path(f"/tmp/confirm-{pid}-{n}")
     res = {}
     sh(["git", "-C", "/repo", "worktree", "remove", "--force", str(wt)])
